@@ -910,3 +910,378 @@ RULES["C13"] = ("object trees whose extreme addresses sit at -1/0/+1 around the 
                 "distinct = distinct (syntax, definition)")
 CHECKS["C13"] = check_c13
 NONTRIVIAL["C13"] = NONTRIVIAL["C04"]
+
+
+# ------------------------------------------------------------------------------------ C14 (names and refs)
+
+NAMING_KINDS = {"dup_object", "dup_field", "dup_enum", "dup_variant", "unknown_ref_block", "unknown_ref_register",
+                "unknown_ref_command", "front_ref_buffer", "front_ref_ref", "front_override_layout", "device_name_not_pascal"}
+
+
+def names_ok(c):
+    """NamesOk of the property, for cfg-free definitions, using the convert_case oracle of the case."""
+    nm = c.get("names") or {}
+    pas = lambda x: nm.get("pascal", {}).get(x, x)
+    snk = lambda x: nm.get("snake", {}).get(x, x)
+    reasons = []
+    objs = list(all_objects(c["adef"]["objects"]))
+    seen = {}
+    for o in objs:
+        p = pas(o["name"])
+        if p in seen:
+            reasons.append("dup_object")
+        seen[p] = o
+    enums = set()
+    for o in objs:
+        for key in ("fields", "fields_in", "fields_out"):
+            fs = o.get(key) or []
+            fn = [snk(f["name"]) for f in fs]
+            if len(fn) != len(set(fn)):
+                reasons.append("dup_field")
+            for f in fs:
+                cv = f.get("conversion") or {}
+                if "enum" in cv:
+                    en = pas(cv["enum"]["name"])
+                    if en in enums:
+                        reasons.append("dup_enum")
+                    enums.add(en)
+                    vn = [pas(v["name"]) for v in cv["enum"]["variants"]]
+                    if len(vn) != len(set(vn)):
+                        reasons.append("dup_variant")
+    for o in objs:
+        if o["kind"] == "ref":
+            ov = o["override"]
+            if ov["kind"] in ("buffer", "ref"):
+                reasons.append("ref_to_" + ov["kind"])
+                continue
+            if ov.get("illegal"):
+                reasons.append("override_layout")
+                continue
+            t = seen.get(pas(o["target"]))
+            if t is None or t is o:
+                reasons.append("ref_missing")
+            elif t["kind"] != ov["kind"]:
+                reasons.append("ref_kind")
+    if nm.get("device_pascal", c["device_name"]) != c["device_name"]:
+        reasons.append("device_name")
+    return (not reasons), reasons
+
+
+def block_ref_cycle(adef):
+    """A block ref that (transitively) sits inside the block it targets."""
+    top = adef["objects"]
+    def contains_cycle(block, stack):
+        for o in block.get("objects", []):
+            if o["kind"] == "block":
+                if contains_cycle(o, stack + [o["name"]]):
+                    return True
+            elif o["kind"] == "ref" and o["override"]["kind"] == "block":
+                t = find_object_loose(top, o["target"])
+                if t is not None and t["kind"] == "block":
+                    if loose(t["name"]) in [loose(s) for s in stack]:
+                        return True
+                    if len(stack) < 12 and contains_cycle(t, stack + [t["name"]]):
+                        return True
+        return False
+    for o in all_objects(top):
+        if o["kind"] == "block" and contains_cycle(o, [o["name"]]):
+            return True
+    return False
+
+
+def find_object_loose(objs, name):
+    for o in all_objects(objs):
+        if loose(o["name"]) == loose(name):
+            return o
+    return None
+
+
+def check_c14(c, af, a, mf):
+    if c.get("profile") != "names":
+        return None
+    if '"cfg"' in json.dumps(c["adef"]):
+        return None
+    ok, reasons = names_ok(c)
+    oc = af.get("outcome")
+    if oc in ("panic", "abort", "timeout"):
+        fid = None
+        if oc == "abort" and isinstance(mf, dict) and mf.get("outcome") == "abort" and block_ref_cycle(c["adef"]):
+            fid = "F13-block-ref-inside-its-own-target"
+        return {"why": f"naming / ref input makes the generator {oc} ({af.get('site')}) instead of reporting an error; oracle: {reasons}", "finding": fid}
+    if ok:
+        if oc == "error" and af.get("kind") in NAMING_KINDS:
+            return {"why": "a collision-free, resolvable definition is rejected for a naming reason: " + af["kind"] + " " + json.dumps(af.get("names")), "finding": None}
+        if oc == "ok":
+            # every ref resolves to the object of that name wherever it is declared: the accessor's layout is the target's
+            nm = c.get("names") or {}
+            pas = lambda x: nm.get("pascal", {}).get(x, x)
+            meth = lambda x: nm.get("method", {}).get(pas(x), x)
+            methods = {}
+            for b in af["blocks"]:
+                for m in b["methods"]:
+                    methods.setdefault(m["name"], m)
+            for o in all_objects(c["adef"]["objects"]):
+                if o["kind"] == "ref":
+                    m = methods.get(meth(o["name"]))
+                    if m is None:
+                        return {"why": f"ref {o['name']} has no accessor", "finding": None}
+                    if o["override"]["kind"] in ("register", "block") and m["target"] != pas(o["target"]):
+                        return {"why": f"ref {o['name']} resolves to {m['target']} instead of {pas(o['target'])}", "finding": None}
+        return None
+    if oc == "ok":
+        return {"why": "a definition with a naming / ref defect is accepted: " + ",".join(reasons), "finding": None}
+    return None
+
+
+RULES["C14"] = ("object trees over a pool of names whose spellings do or do not coincide after normalisation (my_reg / MyReg / "
+                "myReg / MY_REG, foo_2 / Foo2, ...), with one injected defect per case in 75% of the cases (duplicate object / "
+                "field / enum / variant after normalisation, missing or wrong-kind ref target, ref to buffer / ref, layout key "
+                "in an override, non-PascalCase device name) and refs placed before / after / deeper than their target; "
+                "non-trivial = the case carries a ref or a defect; distinct = distinct (syntax, definition)")
+CHECKS["C14"] = check_c14
+NONTRIVIAL["C14"] = lambda c: c.get("profile") == "names" and (c.get("defect") is not None)
+
+
+# ------------------------------------------------------------------------------------ C16 (four syntaxes) — group oracle
+
+def check_groups_c16(cases, impl, model):
+    """Returns a list of violations over groups of the same ADEF rendered in the four syntaxes."""
+    import p_gen
+    groups = {}
+    for c in cases:
+        if c.get("profile") == "four":
+            groups.setdefault(c["group"], []).append(c)
+    out = []
+    for gid, cs in groups.items():
+        answers = [(c, impl.get(c["id"], {})) for c in cs]
+        ref_c, ref_a = answers[0]
+        for c, a in answers[1:]:
+            fa, fr = a.get("facts", {}), ref_a.get("facts", {})
+            why = None
+            if fa.get("outcome") != fr.get("outcome"):
+                why = f"{c['syntax']} -> {fa.get('outcome')}/{fa.get('kind')} but {ref_c['syntax']} -> {fr.get('outcome')}/{fr.get('kind')}"
+            elif fa.get("outcome") == "error" and (fa.get("kind"), fa.get("names") if fa.get("stage") != "front" else None) != (fr.get("kind"), fr.get("names") if fr.get("stage") != "front" else None):
+                why = f"different rejection: {c['syntax']} {fa.get('kind')} {fa.get('names')} vs {ref_c['syntax']} {fr.get('kind')} {fr.get('names')}"
+            elif a.get("mir") != ref_a.get("mir"):
+                why = f"the lowered definitions differ between {c['syntax']} and {ref_c['syntax']}: " + (p_gen.first_diff(a.get("mir"), ref_a.get("mir")) or "")
+            elif fa.get("outcome") == "ok" and squash_ws(a.get("tokens")) != squash_ws(ref_a.get("tokens")):
+                why = f"generated code differs between {c['syntax']} and {ref_c['syntax']}"
+            if why:
+                out.append({"why": why, "finding": None, "case": p_gen.slim(c), "impl": {k: fa.get(k) for k in ("outcome", "stage", "kind", "names")}})
+                break
+    return out
+
+
+def squash_ws(s):
+    return "".join(s.split()) if isinstance(s, str) else s
+
+
+RULES["C16"] = ("abstract definitions in the fragment all four syntaxes express (whole devices: nesting, repeats, refs with "
+                "overrides, conversions, inline enums, reset values, overlap flags, cfgs, descriptions; every global-config key "
+                "toggled), each rendered as DSL, JSON, YAML and TOML; the MIR Debug trees, the accept/reject decisions and the "
+                "generated token streams are compared across the four; non-trivial = the definition sets at least one global "
+                "default or has at least three objects; distinct = distinct (syntax, definition)")
+NONTRIVIAL["C16"] = lambda c: c.get("profile") == "four" and (len(c["adef"].get("config", {})) > 3 or len(list(all_objects(c["adef"]["objects"]))) >= 3)
+
+
+# ------------------------------------------------------------------------------------ C06 / C17 / C03b on the emitted field-set API
+
+def carrier_for(base, width):
+    if base == "bool":
+        return "u8"
+    bits = 8
+    while bits < width:
+        bits *= 2
+    return ("i" if base == "int" else "u") + str(bits)
+
+
+def super_path(t):
+    t = "".join(t.split())
+    if t.startswith("::") or t.split("::")[0] == "crate":
+        return t
+    return "super::" + t
+
+
+def walk_defs(c):
+    """Yield (object, fs_name_pascal, size, fields, byte_order_eff, bit_order_eff, obj_access_eff) for every
+    register / command field set of the definition, using the case's convert_case oracle."""
+    nm = c.get("names") or {}
+    pas = lambda x: nm.get("pascal", {}).get(x, x)
+    cfg = c["adef"].get("config", {})
+    for o in all_objects(c["adef"]["objects"]):
+        if o["kind"] == "register":
+            sets = [(pas(o["name"]), o["size_bits"], o.get("fields") or [])]
+        elif o["kind"] == "command":
+            sets = [(pas(o["name"]) + "FieldsIn", o.get("size_bits_in", 0), o.get("fields_in") or []),
+                    (pas(o["name"]) + "FieldsOut", o.get("size_bits_out", 0), o.get("fields_out") or [])]
+        else:
+            continue
+        for (n, size, fs) in sets:
+            bo = o.get("byte_order") or cfg.get("default_byte_order") or ("LE" if size <= 8 else None)
+            bito = o.get("bit_order") or cfg.get("default_bit_order") or "LSB0"
+            yield o, n, size, fs, bo, bito
+
+
+def check_c06(c, af, a, mf):
+    if af.get("outcome") != "ok" or c.get("profile") not in ("api", "layout", "four"):
+        return None
+    nm = c.get("names") or {}
+    snk = lambda x: nm.get("snake", {}).get(x, x)
+    pas = lambda x: nm.get("pascal", {}).get(x, x)
+    cfg = c["adef"].get("config", {})
+    fss = {}
+    for fs in af["field_sets"]:
+        fss.setdefault(fs["name"], fs)
+    dflt_field_access = cfg.get("default_field_access", "RW")
+    known = agree(af, mf)
+    for o, n, size, fields, bo, bito in walk_defs(c):
+        if size == 0:
+            continue
+        fs = fss.get(n)
+        if fs is None:
+            return {"why": f"no field set type named {n} (documented PascalCase of {o['name']})", "finding": None}
+        if fs["size_bits"] != size or fs["size_bytes"] != (size + 7) // 8:
+            return {"why": f"{n}: SIZE_BITS {fs['size_bits']} / {fs['size_bytes']} bytes, declared {size} bits", "finding": None}
+        emitted = {f["name"]: f for f in fs["fields"]}
+        for f in fields:
+            ef = emitted.get(snk(f["name"]))
+            if ef is None:
+                return {"why": f"{n}: no accessor named {snk(f['name'])} for field {f['name']}", "finding": None}
+            s = f["start"]
+            e = f.get("end", s + 1) if f["base"] != "bool" else (f.get("end", s + 1) if f.get("end", s + 1) != s else s + 1)
+            width = e - s
+            acc = f.get("access", dflt_field_access)
+            cv = f.get("conversion")
+            for role, key in (("getter", "R"), ("setter", "W")):
+                x = ef[role]
+                should = (key in acc)
+                if (x is not None) != should:
+                    return None  # C17's concern
+                if x is None:
+                    continue
+                want_fn = ("load_" if role == "getter" else "store_") + ("lsb0" if bito == "LSB0" else "msb0")
+                if (x["start"], x["end"]) != (s, e):
+                    return {"why": f"{n}.{ef['name']} {role}: range {x['start']}..{x['end']}, declared {s}..{e}", "finding": None}
+                if x["fn"] != want_fn or x["byte_order"] != bo:
+                    return {"why": f"{n}.{ef['name']} {role}: {x['fn']}<{x['byte_order']}>, effective orders are {bito}/{bo}", "finding": None}
+                if x["carrier"] != carrier_for(f["base"], width):
+                    return {"why": f"{n}.{ef['name']} {role}: carrier {x['carrier']}, smallest fitting is {carrier_for(f['base'], width)}", "finding": None}
+                if f["base"] == "bool":
+                    want_t = "bool"
+                elif cv is None:
+                    want_t = carrier_for(f["base"], width)
+                else:
+                    tp = cv["type"] if "type" in cv else pas(cv["enum"]["name"])
+                    want_t = super_path(tp)
+                    if role == "getter" and cv.get("try"):
+                        want_t = f"Result<{want_t},<{want_t}asTryFrom<{carrier_for(f['base'], width)}>>::Error>"
+                if x["type"] != want_t:
+                    return {"why": f"{n}.{ef['name']} {role}: type {x['type']}, declared {want_t}", "finding": None}
+    # names: accessor methods of objects follow snake_case with the configured boundaries
+    methods = set()
+    for b in af["blocks"]:
+        for m in b["methods"]:
+            methods.add(m["name"])
+    for o in all_objects(c["adef"]["objects"]):
+        want = snk(o["name"])
+        if want not in methods:
+            fid = None
+            if known and "name_word_boundaries" in cfg:
+                fid = "F4-accessor-names-use-default-word-boundaries"
+            return {"why": f"object {o['name']}: no accessor method named {want} (snake_case with the configured boundaries); methods: {sorted(methods)[:8]}", "finding": fid}
+    return None
+
+
+RULES["C06"] = ("whole devices and single-object layouts in the four syntaxes: for every field the emitted getter / setter "
+                "(codec function, byte-order type, carrier, (start,end), conversion and signature types) is compared with the "
+                "declared range, the effective orders (object / global / built-in), the smallest fitting carrier and the declared "
+                "conversion type; type and accessor names are compared with the convert_case result for the configured "
+                "boundaries; non-trivial = at least two fields; distinct = distinct (syntax, definition)")
+CHECKS["C06"] = check_c06
+NONTRIVIAL["C06"] = lambda c: sum(len(fs) for _, _, _, fs, _, _ in walk_defs(c)) >= 2
+
+
+def check_c17(c, af, a, mf):
+    if af.get("outcome") != "ok" or c.get("profile") not in ("api", "four"):
+        return None
+    nm = c.get("names") or {}
+    snk = lambda x: nm.get("snake", {}).get(x, x)
+    pas = lambda x: nm.get("pascal", {}).get(x, x)
+    meth = lambda x: nm.get("method", {}).get(pas(x), snk(x))
+    cfg = c["adef"].get("config", {})
+    methods = {}
+    for b in af["blocks"]:
+        for m in b["methods"]:
+            methods.setdefault(m["name"], m)
+    top = c["adef"]["objects"]
+    for o in all_objects(top):
+        m = methods.get(meth(o["name"]))
+        if m is None:
+            continue
+        if o["kind"] == "register":
+            want = o.get("access") or cfg.get("default_register_access", "RW")
+        elif o["kind"] == "buffer":
+            want = o.get("access") or cfg.get("default_buffer_access", "RW")
+        elif o["kind"] == "ref" and o["override"]["kind"] == "register":
+            t = find_object_loose(top, o["target"])
+            if t is None or t["kind"] != "register":
+                continue
+            want = o["override"].get("access") or t.get("access") or cfg.get("default_register_access", "RW")
+        else:
+            continue
+        if m["access"] != want:
+            return {"why": f"accessor {m['name']}: access marker {m['access']}, effective access is {want}", "finding": None}
+    fss = {}
+    for fs in af["field_sets"]:
+        fss.setdefault(fs["name"], fs)
+    dflt = cfg.get("default_field_access", "RW")
+    for o, n, size, fields, bo, bito in walk_defs(c):
+        fs = fss.get(n)
+        if fs is None:
+            continue
+        emitted = {f["name"]: f for f in fs["fields"]}
+        for f in fields:
+            ef = emitted.get(snk(f["name"]))
+            if ef is None:
+                continue
+            acc = f.get("access", dflt)
+            if (ef["getter"] is not None) != ("R" in acc) or (ef["setter"] is not None) != ("W" in acc):
+                return {"why": f"{n}.{ef['name']}: getter={ef['getter'] is not None} setter={ef['setter'] is not None} for access {acc}", "finding": None}
+    return None
+
+
+RULES["C17"] = ("whole devices in the four syntaxes with access specifiers at global / object / ref-override / field level: the "
+                "access marker of every register and buffer accessor and the presence of every field getter / setter are "
+                "compared with the effective access; the capability table of the runtime crate is re-extracted from the source "
+                "on every run and decided in Lean; non-trivial = some non-default access in the definition; distinct = distinct "
+                "(syntax, definition)")
+CHECKS["C17"] = check_c17
+NONTRIVIAL["C17"] = lambda c: any(x in json.dumps(c["adef"]) for x in ('"RO"', '"WO"'))
+
+
+def check_c03(c, af, a, mf):
+    if af.get("outcome") != "ok":
+        return None
+    BITS = {"u8": 8, "u16": 16, "u32": 32, "u64": 64, "u128": 128, "i8": 8, "i16": 16, "i32": 32, "i64": 64, "i128": 128}
+    for fs in af["field_sets"]:
+        if fs["size_bytes"] != (fs["size_bits"] + 7) // 8 or len(fs["new"]) != fs["size_bytes"]:
+            return {"why": f"{fs['name']}: {fs['size_bytes']} bytes for {fs['size_bits']} bits (array of {len(fs['new'])})", "finding": None}
+        for f in fs["fields"]:
+            for role in ("getter", "setter"):
+                x = f[role]
+                if x is None:
+                    continue
+                if not (x["start"] < x["end"] <= fs["size_bits"] <= 8 * fs["size_bytes"]):
+                    return {"why": f"{fs['name']}.{f['name']} {role}: range {x['start']}..{x['end']} is not inside the {fs['size_bits']}-bit / {fs['size_bytes']}-byte set", "finding": None}
+                cb = BITS.get(x["carrier"])
+                if cb is None or x["end"] - x["start"] > cb:
+                    return {"why": f"{fs['name']}.{f['name']} {role}: {x['end'] - x['start']} bits in carrier {x['carrier']}", "finding": None}
+                if x["conv"] == "bool" and (x["end"] - x["start"] != 1 or x["carrier"] != "u8"):
+                    return {"why": f"{fs['name']}.{f['name']} {role}: bool accessor over {x['end'] - x['start']} bits of {x['carrier']}", "finding": None}
+    return None
+
+
+RULES["C03"] = ("part (a): exhaustive (s,e) geometry and random cases through the real ops functions with canary bytes; part (b): every "
+                "load/store call site and byte array extracted from the tokens of generated definitions (boundary-biased "
+                "layouts and whole devices) is checked against start < end <= size <= 8*bytes and width <= carrier")
+CHECKS["C03"] = check_c03
